@@ -24,11 +24,12 @@ TEMPLATES = [("1,2", 2, 0), ("1 , 2", 2, 0), ("1", 1, 0), ("", 0, 0), ("  ", 0, 
              ("1,", 0, 1), ("1,,2", 0, 1), ("1 2", 0, 1), ("#15ab", 0, 1), ("\\\"a", 0, 1), ("(1", 0, 1), (",1", 0, 1), ("1;", 1, 0), ("1 ,", 0, 1)]
 
 
-def account(ti, reads, timeout=600):
+def account(ti, reads, timeout=600, prefix=None):
     data, items, malformed = TEMPLATES[ti]
     us = {"SCPI_RegSet.0": 4, "SCPI_ErrorPushEx.0": 10, "findCommandHeader.0": 3, "strnpbrk.0": 6, "strnpbrk.1": 6, "strlen.0": 6}
-    return Case("tmpl%02d-reads%d" % (ti, reads), HA, SRCS,
-                defs=['-DDATA="%s"' % data, "-DITEMS=%d" % items, "-DMALFORMED=%d" % malformed, "-DREADS=%d" % reads], unwind=40, unwindset=us,
+    pdefs = ['-DPREFIX="%s"' % prefix[0], "-DPREFIX_ERRS=%d" % prefix[1]] if prefix else []
+    return Case("tmpl%02d-reads%d%s" % (ti, reads, "-after-" + prefix[2] if prefix else ""), HA, SRCS,
+                defs=['-DDATA="%s"' % data, "-DITEMS=%d" % items, "-DMALFORMED=%d" % malformed, "-DREADS=%d" % reads] + pdefs, unwind=48, unwindset=us,
                 object_bits=11, timeout=timeout, mem_est=3, functions=FUNCS, optional_witness=["silent-failure"],
                 stubs=["strtol (exact model)", "strndup/strnlen models"],
                 bounds=dict(message="H " + data.replace("\\", "") + " LF (concrete)", handler="reads %d integer parameters (mandatory flags symbolic), then succeeds / pushes its own error / fails silently (symbolic); "
@@ -41,6 +42,11 @@ PAIRS_T = [(a, b) for a in range(6) for b in range(6)]
 
 def cases(tier):
     acc = [account(ti, r) for ti in range(len(TEMPLATES)) for r in ((0, 2) if tier == "quick" else (0, 1, 2, 3))]
+    # the same unit behind an earlier unit of the message that raised an error of its own / responded
+    for pf in (("NOPE;", 1, "undefined"), ("G;", 0, "ok"), ("X 1,;", 1, "malformed")):
+        for ti in (0, 2, 3, 7, 10):
+            for r in ((1,) if tier == "quick" else (0, 1, 2, 3)):
+                acc.append(account(ti, r, prefix=pf))
     if tier == "quick":
         return [mk(a, b, 4) for (a, b) in PAIRS_Q] + acc
     return [mk(a, b, 5, 6000, "cadical") for (a, b) in PAIRS_T[::3]] + [mk(a, b, 4, 3000) for (a, b) in PAIRS_T] + acc
